@@ -34,8 +34,12 @@ fn outcome_of(res: Result<Result<Vec<SolvableId>, UnsolvableOrCancelled>, Box<dy
 }
 
 /// problems with their cancellation scripts, solved in order on ONE solver
+/// `--sort-deps`: the provider's sort_candidates looks up the dependencies of its candidates through the cache
+static SORT_DEPS: std::sync::atomic::AtomicBool = std::sync::atomic::AtomicBool::new(false);
+
 fn run_seq(u: &Universe, seq: &[(Prob, Vec<u32>)], mode: Mode, policy: Policy, label: &str) -> serde_json::Value {
     let mut prov = Prov::with_mode(u.clone(), mode);
+    prov.sort_fetches_deps = SORT_DEPS.load(std::sync::atomic::Ordering::Relaxed);
     prov.max_polls.set(300_000);
     let gate = prov.gate.clone();
     let log = prov.log.clone();
@@ -127,6 +131,9 @@ fn main() {
     let skip: u64 = arg(&a, "skip", 0);
     let max_sched: usize = arg(&a, "max-sched", 40);
     let max_k: u32 = arg(&a, "max-k", 60);
+    if a.contains_key("sort-deps") {
+        SORT_DEPS.store(true, std::sync::atomic::Ordering::Relaxed);
+    }
     let wd = Watchdog::start(arg(&a, "case-timeout", 60));
     let so = std::io::stdout();
     let cases: Vec<Case> = if let Some(path) = a.get("cases") {
